@@ -20,10 +20,10 @@ package main
 
 import (
 	"bytes"
-	"context"
 	"crypto/ecdsa"
 	"crypto/elliptic"
 	"crypto/rand"
+	"crypto/tls"
 	"crypto/x509"
 	"crypto/x509/pkix"
 	"encoding/asn1"
@@ -37,6 +37,7 @@ import (
 	"io"
 	"log"
 	"math/big"
+	"net/http"
 	"net/http/httptest"
 	"os"
 	"sort"
@@ -149,7 +150,17 @@ type Handler struct {
 	Revs    int
 }
 
+// Config: one CRL section of a ca.json (durations in nanoseconds; nil = absent) through the real Config.Init,
+// CRLConfig.Validate, the authority's own defaulting (a real authority is started when its generator period is >= 1 s)
+// and CRLConfig.TickerDuration.
+type Config struct {
+	Enabled      bool
+	Cache, Renew *int64
+}
+
 type Case struct {
+	CACRL    *CACRL    `json:",omitempty"`
+	Config   *Config   `json:",omitempty"`
 	Handler  *Handler  `json:",omitempty"`
 	Inflight *Inflight `json:",omitempty"`
 	Downtime *Downtime `json:",omitempty"`
@@ -285,18 +296,37 @@ func (l *list) String() string {
 	return s
 }
 
-func (e *env) revokeToken(serial string) int {
-	tok := must(e.ca.Token(fixture.TokenOpts{Subject: serial, Audience: fixture.Audience("/1.0/revoke"), NoSANs: true}))
-	ctx := provisioner.NewContextWithMethod(authority.NewContext(context.Background(), e.ca.Auth), provisioner.RevokeMethod)
-	if _, err := e.ca.Auth.Authorize(ctx, tok); err != nil {
-		return 401
-	}
-	return status(e.ca.Auth.Revoke(ctx, &authority.RevokeOptions{Serial: serial, OTT: tok, ReasonCode: 1, PassiveOnly: true}))
+// router: the CA's API mounted the way /repo/ca/ca.go mounts it (at / and at /1.0)
+func router() http.Handler {
+	mux := chi.NewRouter()
+	api.Route(mux)
+	mux.Route("/1.0", func(r chi.Router) { api.Route(r) })
+	return mux
 }
 
+// post sends a JSON body to the real handler behind path (optionally as a verified mTLS peer) and returns the status.
+func (e *env) post(path string, body any, peer *x509.Certificate) int {
+	var buf bytes.Buffer
+	json.NewEncoder(&buf).Encode(body)
+	req := httptest.NewRequest("POST", "https://"+fixture.DNSName+path, &buf)
+	if peer != nil {
+		req.TLS = &tls.ConnectionState{PeerCertificates: []*x509.Certificate{peer}}
+	}
+	req = req.WithContext(authority.NewContext(req.Context(), e.ca.Auth))
+	w := httptest.NewRecorder()
+	router().ServeHTTP(w, req)
+	return w.Code
+}
+
+// revokeToken: POST /1.0/revoke with a revocation token (the real handler sets the method context, authorizes, revokes)
+func (e *env) revokeToken(serial string) int {
+	tok := must(e.ca.Token(fixture.TokenOpts{Subject: serial, Audience: fixture.Audience("/1.0/revoke"), NoSANs: true}))
+	return e.post("/1.0/revoke", map[string]any{"serial": serial, "ott": tok, "passive": true, "reasonCode": 1}, nil)
+}
+
+// revokeCarried: POST /revoke over mutual TLS, the certificate being revoked is the client certificate
 func (e *env) revokeCarried(crt *x509.Certificate) int {
-	ctx := provisioner.NewContextWithMethod(authority.NewContext(context.Background(), e.ca.Auth), provisioner.RevokeMethod)
-	return status(e.ca.Auth.Revoke(ctx, &authority.RevokeOptions{Serial: crt.SerialNumber.String(), Crt: crt, MTLS: true, ReasonCode: 1, PassiveOnly: true}))
+	return e.post("/revoke", map[string]any{"serial": crt.SerialNumber.String(), "passive": true, "reasonCode": 1}, crt)
 }
 
 func status(err error) int {
@@ -951,6 +981,73 @@ func runReload(rl *Reload) (string, string, string) {
 	return in, "ok", "ok"
 }
 
+func runConfig(cf *Config) (string, string) {
+	dur := func(p *int64) *provisioner.Duration {
+		if p == nil {
+			return nil
+		}
+		return &provisioner.Duration{Duration: time.Duration(*p)}
+	}
+	show := func(p *int64) string {
+		if p == nil {
+			return "-"
+		}
+		return strconv.FormatInt(*p, 10)
+	}
+	in := fmt.Sprintf("cfg enabled=%s cache=%s renew=%s", c.B(cf.Enabled), show(cf.Cache), show(cf.Renew))
+	crl := &config.CRLConfig{Enabled: cf.Enabled, CacheDuration: dur(cf.Cache), RenewPeriod: dur(cf.Renew)}
+	whole := &config.Config{CRL: crl}
+	whole.Init()
+	if err := crl.Validate(); err != nil {
+		return in, "refused"
+	}
+	if !cf.Enabled {
+		d := int64(0)
+		if crl.CacheDuration != nil {
+			d = int64(crl.CacheDuration.Duration)
+		}
+		return in, fmt.Sprintf("cache=%d tick=%d", d, int64(crl.TickerDuration()))
+	}
+	// the authority's own defaulting (cache duration absent or <= 0 => 24 h) runs inside a real authority; with a positive
+	// cache duration nothing is defaulted and TickerDuration can be asked directly (a sub-second period would make the
+	// real generator spin)
+	if crl.CacheDuration != nil && crl.CacheDuration.Duration > 0 && crl.TickerDuration() < time.Second {
+		out := fmt.Sprintf("cache=%d tick=%d", int64(crl.CacheDuration.Duration), int64(crl.TickerDuration()))
+		if crl.TickerDuration() == 0 {
+			// time.NewTicker(0) in startCRLGenerator: confirm on the real authority
+			crashed := false
+			func() {
+				defer func() {
+					if recover() != nil {
+						crashed = true
+					}
+				}()
+				dir := must(os.MkdirTemp("", "verif-c08-cfg-")) // the panic leaves the fixture no chance to remove its own
+				defer os.RemoveAll(dir)
+				if ca, err := fixture.New(fixture.Opts{CRL: crl, DBDir: dir}); err == nil {
+					ca.Close()
+				}
+			}()
+			if crashed {
+				out += " crash"
+			}
+		}
+		return in, out
+	}
+	ca, err := fixture.New(fixture.Opts{CRL: crl})
+	if err != nil {
+		return in, "start-failed"
+	}
+	defer ca.Close()
+	eff := ca.Auth.GetConfig().CRL
+	out := fmt.Sprintf("cache=%d tick=%d", int64(eff.CacheDuration.Duration), int64(eff.TickerDuration()))
+	l := (&env{ca: ca}).fetch()
+	if l.bad != "" || (l.next-l.this)*int64(time.Second) != int64(eff.CacheDuration.Duration)/int64(time.Second)*int64(time.Second) {
+		out += " VIOLATION=served-interval-differs-from-effective-cache-duration"
+	}
+	return in, out
+}
+
 // runHandler returns one model line per request joined by " ;; " is not possible (one line = one case): it emits the
 // four requests of one case as four rows through emit.
 func runHandler(hd *Handler, emit func(in, impl string)) {
@@ -1376,6 +1473,10 @@ func runCase(o *c.Out, k *Case) {
 			in, impl, want = runDowntime(k.Downtime)
 		case k.Inflight != nil:
 			in, impl, want = runInflight(k.Inflight)
+		case k.CACRL != nil:
+			in, impl, want = runCACRL(k.CACRL)
+		case k.Config != nil:
+			in, impl = runConfig(k.Config)
 		case k.Handler != nil:
 			runHandler(k.Handler, func(i, m string) { o.Case(i+" "+caseField(k), m) })
 			return
@@ -1397,7 +1498,7 @@ func main() {
 	n := flag.Int("n", 100, "number of generated cases")
 	out := flag.String("out", "", "output file")
 	replay := flag.String("replay", "", "file of lines with a case=x<hex json> field to re-run")
-	stage := flag.String("stage", "hist", "hist | handler | sched | reload | inflight | downtime | acme | race")
+	stage := flag.String("stage", "hist", "hist | cacrl | config | handler | sched | reload | inflight | downtime | acme | race")
 	flag.Parse()
 	o, err := c.NewOut(*out)
 	if err != nil {
@@ -1444,6 +1545,36 @@ func main() {
 		for i := 0; i < *n; i++ {
 			rr := r.Fork()
 			runCase(o, &Case{Race: &Race{GOR: !rr.Chance(1, 3), Revokers: 1 + rr.Intn(8), Gens: rr.Intn(4), Fetchers: rr.Intn(3)}})
+		}
+	case "cacrl":
+		for _, cc := range []CACRL{{D1: 3600, D2: 7200, Reload: true}, {D1: 86400, D2: 3600, Reload: true}, {D1: 600, Reload: false}} {
+			cc := cc
+			runCase(o, &Case{CACRL: &cc})
+		}
+	case "config":
+		p := func(v int64) *int64 { return &v }
+		h := int64(time.Hour)
+		vals := []*int64{nil, p(0), p(1), p(2), p(3), p(int64(time.Second)), p(90 * int64(time.Second)), p(h), p(24 * h), p(25 * h), p(-1), p(h / 2), p(2 * h)}
+		for _, en := range []bool{true, false} {
+			for _, ca := range vals {
+				for _, re := range vals {
+					runCase(o, &Case{Config: &Config{Enabled: en, Cache: ca, Renew: re}})
+				}
+			}
+		}
+		for i := 0; i < *n; i++ {
+			rr := r.Fork()
+			pick := func() *int64 {
+				switch rr.Intn(6) {
+				case 0:
+					return nil
+				case 1:
+					return p(int64(rr.Intn(5)) - 1)
+				default:
+					return p(int64(rr.Intn(200000)) * int64(time.Second) / 2)
+				}
+			}
+			runCase(o, &Case{Config: &Config{Enabled: !rr.Chance(1, 5), Cache: pick(), Renew: pick()}})
 		}
 	case "handler":
 		runCase(o, &Case{Handler: &Handler{Enabled: false}})
